@@ -45,7 +45,7 @@ FILES = 'pcbasic/basic/devices/files.py'
 
 HOST_CALLS = {
     'open', 'io.open', 'os.remove', 'os.rename', 'os.mkdir', 'os.rmdir', 'os.listdir', 'os.unlink', 'os.makedirs', 'os.walk',
-    'os.path.exists', 'os.path.isdir', 'os.path.isfile', 'os.stat', 'os.chdir', 'os.utime', 'os.chmod', 'os.removedirs', 'os.replace',
+    'os.path.exists', 'os.path.isdir', 'os.path.isfile', 'os.stat', 'os.chdir', 'os.utime', 'os.chmod', 'os.removedirs', 'os.renames', 'os.replace',
     'os.scandir', 'os.symlink', 'os.link', 'os.truncate', 'io.FileIO', 'codecs.open',
 }
 HOST_PREFIXES = ('shutil.', 'tempfile.', 'glob.', 'pathlib.')
@@ -69,6 +69,10 @@ PATH_PARAMS = {
 PROBE_PARAMS = {('istype', 'native_name')}
 SAFE_PRODUCERS = ('self._get_native_abspath', 'self._get_native_reldir', 'os.path.abspath', 'get_short_pathname')
 SAFE_ATTRS = ('self._native_root', 'self._native_cwd')
+
+
+# host calls that act on more than the path they are given (upwards)
+UPWARD_CALLS = ('os.removedirs', 'os.renames')
 
 
 def _host(call):
@@ -298,6 +302,11 @@ def check(ctx, rep):
             elif f == 'safe' and c.args and norm(c.args[0]) in HOST_CALLS:
                 args = c.args[1:]
             if args is not None:
+                # a call that also acts on the ancestors of the path it is given leaves the mount through them,
+                # however safe the path itself is (removedirs / renames prune every empty directory upwards)
+                what = f if _host(c) else norm(c.args[0])
+                rep.ob('provenance.host-call-acts-on-its-path-only', '%s: %s' % (who, short(c, 70)), what not in UPWARD_CALLS,
+                       '%s goes on to the parent directories of its argument: past the root of the mounted drive into the host directories above it' % what, ctx.where(c))
                 for a in args:
                     n_prov += 1
                     ok = is_safe(a)
@@ -443,6 +452,8 @@ def variants(ctx):
         return lambda tree: f(mu.find_def(tree, path_fn))
 
     return [
+        Va('rmdir-prunes-upwards', 'break', DISK, lambda tree: mu.replace_expr(mu.find_def(tree, 'DiskDevice.rmdir'), mu.text_is('os.rmdir'), 'os.removedirs'),
+           expect='provenance.host-call-acts-on-its-path-only'),
         Va('kill-uses-raw-path', 'break', DISK,
            in_fn('DiskDevice.kill', lambda fn: mu.replace_stmt(fn, lambda st: isinstance(st, ast.For) and norm(st.iter) == 'to_kill',
                                                               'for native_path in to_kill:\n    safe(os.remove, os.path.join(self._native_root, dos_pathmask.decode("ascii")))')),
